@@ -141,14 +141,15 @@ where
     L: Flat + Length,
 {
     unsafe fn emplace_unchecked(self, bytes: &mut [u8]) -> Result<&mut FlatVec<T, L>, Error> {
-        unsafe { <Empty as Emplacer<FlatVec<T, L>>>::emplace_unchecked(Empty, bytes) }?;
-        let vec = unsafe { FlatVec::<T, L>::from_mut_bytes_unchecked(bytes) };
-        if vec.capacity() < N {
+        // Capacity does not depend on the contents, so check it before the existing contents are discarded.
+        if unsafe { FlatVec::<T, L>::from_mut_bytes_unchecked(bytes) }.capacity() < N {
             return Err(Error {
                 kind: ErrorKind::InsufficientSize,
                 pos: 0,
             });
         }
+        unsafe { <Empty as Emplacer<FlatVec<T, L>>>::emplace_unchecked(Empty, bytes) }?;
+        let vec = unsafe { FlatVec::<T, L>::from_mut_bytes_unchecked(bytes) };
         vec.extend_until_full(self.0);
         Ok(vec)
     }
